@@ -606,3 +606,75 @@ class sigvalue_calculate_signature(_SigBase):
                 raise PyExc(ValueError, ('Long signature with flexible length is not supported',), None, cx.it.where())
             cx.run.write(wl, 0, r)
         return None
+
+
+# ----------------------------------------------------------------------------- ModelField.parse_from
+class NestedClass:
+    """the nested model class of a ModelField, known only through parse(): remembers what it was asked to parse, may raise
+    any documented decoding error, and leaves the marker variables `fill` in the dictionary it is given"""
+
+    def __init__(self, fill):
+        self.fill, self.calls = fill, []
+
+    def getattr_(self, it, name, node):
+        if name != 'parse':
+            raise Unsupported(f'nested model class attribute {name}')
+
+        def parse(it_, wire, markers=None, ignore_critical=False):
+            from contracts.model import PARSE_RAISES
+            self.calls.append((wire, markers, ignore_critical))
+            tag = it_.run.choose([('normal', True)] + [(e, True) for e in PARSE_RAISES], 'nested.parse')
+            if tag != 'normal':
+                raise PyExc(tag, ('nested TlvModel.parse (interface)',), getattr(node, 'lineno', None), it_.where())
+            if markers is not None:
+                for k, v in self.fill.items():
+                    markers[k] = v
+            return Opaque('fieldvalue', 'nested model')
+        return _M(parse)
+
+
+@contract
+class modelfield_parse_from(Contract):
+    fn = tm.ModelField.parse_from
+    props = ('C07', 'C08')
+    doc = ('ModelField.parse_from hands the nested model class exactly the Value bytes of the element (offset .. offset+length, '
+           'given that the element lies inside its parent) and the criticality rule DECLARED for this field (ignore_critical '
+           'as given to the constructor, nothing else); it returns what the nested parser returns, copies out exactly the '
+           'marker variables of the declared copy-out fields, and raises only what the nested parser raises')
+
+    def setup(self, cx):
+        run = cx.run
+        from contracts.model import PARSE_RAISES
+        ck = run.choose([('no copy-out fields', True), ('one copy-out field', True)], 'copy_out')
+        fill = {} if ck == 'no copy-out fields' else {'_sig##args': Opaque('token', 'm1'), '_sig##extra': Opaque('token', 'm2'),
+                                                       '_other##args': Opaque('token', 'm3')}
+        out_fields = [] if ck == 'no copy-out fields' else [SymObj(tm.ProcedureArgument, dict(name='_sig', default=None))]
+        nested = NestedClass(fill)
+        ic = run.input_bool('declared_ignore_critical')
+        run.ghost['mf'] = dict(nested=nested, ic=ic, fill=fill)
+        self_ = mk_field(cx, tm.ModelField, model_type=nested, copy_in_fields=[], copy_out_fields=out_fields, ignore_critical=ic)
+        return dict(self=self_, instance=None, markers={}, wire=run.input_buf('wire', 'bytes'), offset=run.input_int('offset'),
+                    length=run.input_int('length'), offset_btl=run.input_int('offset_btl'))
+
+    raises = {e: (lambda cx, **p: True) for e in (tm.DecodeError, IndexError, ValueError, struct.error, UnicodeDecodeError)}
+
+    def pre(c, cx, self, instance, markers, wire, offset, length, offset_btl):
+        return And(zint(offset) >= 0, zint(length) >= 0, zint(offset) + zint(length) <= zint(wire.length))
+
+    def post(c, cx, result, self, instance, markers, wire, offset, length, offset_btl):
+        g = cx.run.ghost['mf']
+        calls = g['nested'].calls
+        out = {'nested_parser_called_once': len(calls) == 1}
+        if len(calls) == 1:
+            w, m, ic = calls[0]
+            okw = isinstance(w, View)
+            out['nested_parser_gets_exactly_the_value_bytes'] = okw and And(Eq(w.cell, wire.cell),
+                                                                          Eq(zint(w.start), zint(wire.start) + zint(offset)),
+                                                                          Eq(zint(w.length), zint(length)))
+            out['nested_parser_gets_the_declared_criticality_rule'] = ic is g['ic']
+            out['nested_markers_are_private'] = m is not markers
+            out['returns_the_nested_model'] = isinstance(result, Opaque) and result.typ == 'fieldvalue'
+            want = {k: v for k, v in g['fill'].items() if k.split('##')[0] == '_sig'}
+            out['copies_out_exactly_the_declared_marker_variables'] = isinstance(markers, dict) and set(markers) == set(want) and \
+                all(markers[k] is want[k] for k in want)
+        return out
